@@ -222,7 +222,7 @@ def build(spec, route=0):
         x = ev.Argument('x', (ev.constant(len(spec[2])),), float)
         c = ev.constant(numpy.array(spec[2], dtype=float))
         expr = {'axpy': lambda: c * x + ev.constant(1.), 'dot': lambda: ev.Sum(c * x), 'pair': lambda: (c * x, ev.Sum(c) + ev.Sum(x))}[spec[1]]()
-        return ev.compile(expr, cache_const_intermediates=bool(route % 2))
+        return ev.compile(expr)   # whatever the route of an enclosing container: another compile configuration would be another function
     if t == 'method':
         from nutils import solver
         kw = {k: build(v, 0) for k, v in spec[2]}
